@@ -97,6 +97,10 @@ def matrix(draw, kind, nmin=3, nmax=7):
         vals = draw(st.lists(st.integers(1, 5), min_size=n * n, max_size=n * n))
         W = np.array(vals, dtype=float).reshape(n, n)
         W = (W + W.T) / 2
+        if draw(st.booleans()):      # unreachable pairs, as the distance routines produce them
+            i, j = draw(st.integers(0, n - 1)), draw(st.integers(0, n - 1))
+            if i != j:
+                W[i, j] = W[j, i] = np.inf
     else:
         W = draw(gen.weights_for(A, "dyadic", directed))
     diag = draw(st.sampled_from(["nonzero", "nonzero", "zero"]))
@@ -287,10 +291,23 @@ def check(case, ctx):
     return fails
 
 
+def _bool_flags(name):
+    """boolean keyword parameters of a public function (copy is the stated exception of the property and stays True)"""
+    try:
+        sig = inspect.signature(getattr(bct, name))
+    except (TypeError, ValueError):
+        return []
+    return [(p.name, p.default) for p in sig.parameters.values() if isinstance(p.default, bool) and p.name != "copy"]
+
+
 @st.composite
 def cases(draw, name):
     r = draw(call_args(name))
     args, kwargs = r
+    kwargs = dict(kwargs)
+    for flag, default in _bool_flags(name):
+        if flag not in kwargs and draw(st.booleans()):
+            kwargs[flag] = not default           # exercise the non-default branch of every boolean option
     layout = {}
     for i, a in enumerate(args):
         if isinstance(a, np.ndarray) and a.ndim >= 1:
@@ -307,7 +324,7 @@ def units(tier):
     BOUNDS["public_functions"] = len(public_functions())
     BOUNDS["registered"] = len(registered_names())
     for name in registered_names():
-        ex = (12, 120) if name in SLOW else (40, 600)
+        ex = (16, 150) if name in SLOW else (100, 1000)
         us.append(Unit(name, check, strategy=(lambda nm=name: cases(nm)), examples=ex, shards=(1, 2)))
     return us
 
